@@ -84,6 +84,13 @@ def replay(run, f, tv):
     # (3) composition on the code itself: dt1 then dt2 == dt1 + dt2, and dt = 0 is the identity
     xa = f(f(x0, a, phi, g, 0.3 * T), a, phi, g, 0.7 * T)
     check(xa, "dt=0.3T+0.7T")
+    # (3b) negative steps ("for any dt": the flow is a group in dt): forward dt = T then dt = -T is the identity, and
+    #      1.5 T followed by -0.5 T is the step T itself
+    xb = np.array(f(f(x0, a, phi, g, T), a, phi, g, -T)).flatten()
+    cmp.vec(f"strapdown/negative_step_roundtrip/{cell}", "dt = T followed by dt = -T is not the identity",
+            np.concatenate([xb[:6], rot_of(xb[6:]).flatten()]), np.concatenate([x0[:6], rot(tv["pre"]["q"]).flatten()]), tv)
+    xc = f(f(x0, a, phi, g, 1.5 * T), a, phi, g, -0.5 * T)
+    check(xc, "dt=1.5T-0.5T")
     xz = np.array(f(x0, a, phi, g, 0.0)).flatten()
     cmp.vec(f"strapdown/dt0_identity/{cell}", "dt = 0 is not the identity", np.concatenate([xz[:6], rot_of(xz[6:]).flatten()]),
             np.concatenate([x0[:6], rot(tv["pre"]["q"]).flatten()]), tv)
